@@ -119,3 +119,33 @@ package isaacdatabase
 //@   callsite SuffrageProofByBlockHeight requires a0 <= height
 //@   callsite SuffrageProof requires recv.Height() <= height
 //@   loop 0 invariant forall(k, 0 <= k && k < len(temps) ==> temps[k] != nil)
+
+// ---- C23: expel-operation lookups match the stored ranges --------------------------------
+//
+// The callback that TraverseSuffrageExpelOperations runs on every stored record:
+// a record whose range does not cover the height is skipped, not taken as the
+// end of the traversal.
+//@ func ReadFrameHeaderSuffrageExpelOperation
+//@   trusted
+//@   pure
+//@ func (*TempPool).TraverseSuffrageExpelOperations$1
+//@   prop C23
+//@   requires db != nil && db.baseLeveldb != nil && callback != nil
+//@   ensures [local-skip] r1 == nil && r.End() >= old(heighti) && r.Start() > old(heighti) ==> r0
+//@   ensures [local-stop-only-below] r1 == nil && !r0 && !(r.End() >= old(heighti) && r.Start() <= old(heighti)) ==> r.End() < old(heighti)
+//@   callsite DecodeFrame requires r.End() >= heighti && r.Start() <= heighti
+
+// the lookup of one node's operation: same skipping rule; the operation taken
+// covers the height
+//@ func (*TempPool).SuffrageExpelOperation$1
+//@   prop C23
+//@   ensures [local-skip] r1 == nil && r.End() >= old(heighti) && r.Start() > old(heighti) ==> r0
+//@   ensures [local-taken] r1 == nil && opb != old(opb) ==> r.End() >= old(heighti) && r.Start() <= old(heighti)
+
+// removal by height: every record is looked at; a record is deleted exactly
+// when it ended at or before the height, under its own key
+//@ func (*TempPool).RemoveSuffrageExpelOperationsByHeight$1
+//@   prop C23
+//@   requires batch != nil && batch.Batch != nil && len(batch.prefix) < 1099511627776 && len(key) < 1099511627776
+//@   ensures [local-all] r1 == nil ==> r0
+//@   callsite Delete requires r.End() <= heighti && a0 == key
